@@ -115,11 +115,27 @@ func TokenDFS(a Alphabet, maxLen int, shard, nshards int, visit Visit) {
 			continue
 		}
 		for j, t2 := range a.Tokens {
-			if (i*n+j)%nshards != shard {
+			// pairs: judged by their owner, replayed quietly by the others; subtrees below
+			// triples are the unit of work (finer than pairs: the viable subtrees differ in
+			// size by orders of magnitude)
+			toks = append(toks[:1], t2)
+			text2 := []byte(t1 + " " + t2)
+			ext2 := true
+			if (i*n+j)%nshards == shard {
+				ext2 = visit(toks, text2)
+			} else {
+				ext2 = visitQuiet(visit, toks, text2)
+			}
+			if !ext2 || maxLen < 3 {
 				continue
 			}
-			toks = append(toks[:1], t2)
-			rec()
+			for k, t3 := range a.Tokens {
+				if ((i*n+j)*n+k)%nshards != shard {
+					continue
+				}
+				toks = append(toks[:2], t3)
+				rec()
+			}
 		}
 		toks = toks[:0]
 	}
